@@ -312,6 +312,25 @@ func (s *OuterJoin) receiveRecord(ctx ExecutionContext, produce ProduceFn, myRec
 		key[i] = value
 	}
 
+	if joinKeyHasNull(key) {
+		// Join keys come from equality predicates and NULL = x is never true: this record matches nothing.
+		// On an outer side it is an unmatched row, emitted with nulls on the other side.
+		if s.isOuterLeft && amLeft {
+			outputValues := make([]octosql.Value, s.leftFieldCount+s.rightFieldCount)
+			copy(outputValues, record.Values)
+			if err := produce(ProduceFromExecutionContext(ctx), NewRecord(outputValues, record.Retraction, record.EventTime)); err != nil {
+				return fmt.Errorf("couldn't produce: %w", err)
+			}
+		} else if s.isOuterRight && !amLeft {
+			outputValues := make([]octosql.Value, s.leftFieldCount+s.rightFieldCount)
+			copy(outputValues[s.leftFieldCount:], record.Values)
+			if err := produce(ProduceFromExecutionContext(ctx), NewRecord(outputValues, record.Retraction, record.EventTime)); err != nil {
+				return fmt.Errorf("couldn't produce: %w", err)
+			}
+		}
+		return nil
+	}
+
 	firstRecordForThatKeyOnThisSide := false
 	lastRetractionForThatKeyOnThisSide := false
 	{
